@@ -115,6 +115,19 @@ fn decode_inner(buf: &mut BytesMut) -> Result<Option<(RequestId, (Tag, Vec<Contr
     Ok(Some((msgid, (Tag::StructureTag(protoop), controls))))
 }
 
+#[cfg(ldap3_verif)]
+#[allow(clippy::type_complexity)]
+pub fn verif_decode(
+    buf: &mut BytesMut,
+) -> Result<Option<(RequestId, StructureTag, Vec<Control>)>, io::Error> {
+    decode_inner(buf).map(|o| {
+        o.map(|(id, (tag, ctrls))| match tag {
+            Tag::StructureTag(t) => (id, t, ctrls),
+            t => (id, t.into_structure(), ctrls),
+        })
+    })
+}
+
 impl Decoder for LdapCodec {
     type Item = (RequestId, (Tag, Vec<Control>));
     type Error = io::Error;
